@@ -299,6 +299,10 @@ fn compound_command_program_header(
         // If true, we start with the root node.
         let mut node = if root_command.is_some() { root } else { header };
 
+        // The header path is the node in which the last mnemonic is looked up.
+        // For a header with a single mnemonic this is the start node.
+        header = node;
+
         let (i2, res) = program_mnemonic(i1)?;
         let name = str::from_utf8(res)?;
         node = node.child(name).ok_or(Error::UndefinedHeader)?;
